@@ -122,6 +122,7 @@ type c12vTunnel struct {
 	waiting bool // the relay's reader is blocked on an empty queue
 	out     []byte
 	closes  atomic.Int64
+	cw      atomic.Bool
 }
 
 func c12vNewTunnel() *c12vTunnel { t := &c12vTunnel{}; t.cond = sync.NewCond(&t.mu); return t }
@@ -178,6 +179,10 @@ func (t *c12vTunnel) Write(p []byte) (int, error) {
 	t.out = append(t.out, p...)
 	return len(p), nil
 }
+
+// CloseWrite: iocopy.UDP calls it when its UDP->tunnel direction has ended (the local
+// side was closed or failed); recorded only.
+func (t *c12vTunnel) CloseWrite() error { t.cw.Store(true); return nil }
 
 func (t *c12vTunnel) Close() error {
 	t.closes.Add(1)
